@@ -57,7 +57,7 @@ def mutate(rng, text):
 def run(res, tier, seed):
     rng = random.Random(seed)
     proof_ok = proof_stage(res, "Rva.Proofs.C16", THEOREMS)
-    n = 150 if tier == "quick" else 2500
+    n = 150 if tier == "quick" else 12000
     cases = []
     for _ in range(n):
         s, _ = prog.program(rng, sloppy=rng.choice([0, 0.2]), multi_ret=False)
